@@ -35,8 +35,8 @@ struct HC {
 };
 using Map = tbb::concurrent_hash_map<int, Val, HC>;
 
-enum OK { INS, INS_ACC, INS_CACC, EMPL, FIND_ACC, FIND_CACC, COUNT, ERASE, ERASE_ACC, NOPS };
-const char* const kOp[] = {"insert", "insert(acc)", "insert(cacc)", "emplace", "find(acc)", "find(cacc)", "count", "erase", "erase(acc)"};
+enum OK { INS, INS_ACC, INS_CACC, EMPL, FIND_ACC, FIND_CACC, COUNT, ERASE, ERASE_ACC, BULK, NOPS };
+const char* const kOp[] = {"insert", "insert(acc)", "insert(cacc)", "emplace", "find(acc)", "find(cacc)", "count", "erase", "erase(acc)", "bulk-insert"};
 struct MOp { OK k; bool ok; uint64_t tag; };   // tag: written (successful insert) or observed (find / failed insert with accessor)
 struct KModel {
     bool present = false; uint64_t tag = 0;
@@ -92,20 +92,20 @@ std::string hist_text(const std::vector<Ev>& h) {
 
 }  // namespace
 
-SIM_SCENARIO(scen_c10, "c10", "C10", 800000, 4000) {
+SIM_SCENARIO(scen_c10, "c10", "C10", 3000000, 8000) {
     hx::Desc d;
     g_live_vals = 0;
     int nthreads = (int)sim::draw_range(2, 4, "threads");
     g_hash_kind = (int)sim::draw(4, "hash");
-    g_shift = (int)sim::draw_range(1, 6, "shift");
+    g_shift = (int)sim::draw_range(1, 10, "shift");
     int nkeys = (int)sim::draw_range(1, 6, "nkeys");
-    static const int prefills[] = {0, 0, 1, 2, 3, 6, 7, 14, 15, 30, 31, 62};
+    static const int prefills[] = {0, 0, 1, 2, 3, 6, 7, 14, 15, 30, 31, 62, 126, 250, 254, 255, 256, 510};
     int prefill = sim::draw_of(prefills, "prefill");
     int nbuckets = (int)sim::draw(3, "nbuckets");
     static const char* const hn[] = {"identity", "constant", "lowbits-collide", "mix"};
     d.add(hx::fmt("concurrent_hash_map hash=%s shift=%d keys=%d prefill=%d initial_buckets=%d", hn[g_hash_kind], g_shift, nkeys, prefill, nbuckets));
     std::vector<std::vector<Plan>> plan(nthreads);
-    int total = 0;
+    int total = 0, bulk_budget = 2, bulk_next = 5000;
     for (int t = 0; t < nthreads; ++t) {
         int nops = (int)sim::draw_range(1, 7, "nops");
         std::string s = hx::fmt("T%d:", t);
@@ -113,8 +113,12 @@ SIM_SCENARIO(scen_c10, "c10", "C10", 800000, 4000) {
             OK k = (OK)sim::draw(NOPS, "op");
             int key = (int)sim::draw((uint64_t)nkeys, "key");
             int hold = (int)sim::draw(4, "hold");
+            // bulk insert of fresh keys (outside the checked histories): lets the table grow by one or two steps
+            // while another thread's operation is in flight
+            static const int bulks[] = {5, 40, 130, 260, 520};
+            if (k == BULK) { if (bulk_budget-- <= 0) k = COUNT; else hold = sim::draw_of(bulks, "bulk_n"); }
             plan[t].push_back({k, key, hold});
-            s += hx::fmt(" %s(k%d)/%d", kOp[k], key, hold);
+            s += k == BULK ? hx::fmt(" bulk-insert(%d)", hold) : hx::fmt(" %s(k%d)/%d", kOp[k], key, hold);
         }
         d.add(s);
     }
@@ -125,6 +129,7 @@ SIM_SCENARIO(scen_c10, "c10", "C10", 800000, 4000) {
     for (int i = 0; i < prefill; ++i) m->insert(std::make_pair(1000 + i, Val(500000 + i)));
 
     std::vector<std::vector<Ev>> hist(nkeys);
+    std::vector<int> bulk_keys;
     std::vector<std::function<void()>> fns;
     for (int t = 0; t < nthreads; ++t) {
         fns.push_back([&, t] {
@@ -132,6 +137,15 @@ SIM_SCENARIO(scen_c10, "c10", "C10", 800000, 4000) {
             for (const Plan& p : plan[t]) {
                 uint64_t mytag = (uint64_t)(t + 1) * 1000 + (uint64_t)(++seq);
                 Ev e; e.op.k = p.k; e.op.ok = false; e.op.tag = 0;
+                if (p.k == BULK) {
+                    for (int i = 0; i < p.hold; ++i) {
+                        int bk = bulk_next++;
+                        bool ok = m->insert(std::make_pair(bk, Val(600000 + (uint64_t)bk)));
+                        SIM_CHECK(ok, "oracle:insert-result", "insert of fresh key %d reported failure", bk);
+                        bulk_keys.push_back(bk);
+                    }
+                    continue;
+                }
                 e.inv = sim::step();
                 switch (p.k) {
                 case INS: e.op.ok = m->insert(std::make_pair(p.key, Val(mytag))); e.op.tag = mytag; e.res = sim::step(); break;
@@ -206,15 +220,17 @@ SIM_SCENARIO(scen_c10, "c10", "C10", 800000, 4000) {
         if (!chk.check(hist[k], KModel(), &why))
             sim::fail("oracle:not-linearizable", "history of key %d is not linearizable to a map: %s; history:%s", k, why.c_str(), hist_text(hist[k]).c_str());
     }
-    SIM_CHECK(m->size() == present + (size_t)prefill, "oracle:size", "size() == %zu at quiescence but %zu keys are present", m->size(), present + (size_t)prefill);
+    size_t others = (size_t)prefill + bulk_keys.size();
+    SIM_CHECK(m->size() == present + others, "oracle:size", "size() == %zu at quiescence but %zu keys are present", m->size(), present + others);
+    for (int bk : bulk_keys) { Map::const_accessor a; SIM_CHECK(m->find(a, bk) && a->second.tag == 600000 + (uint64_t)bk, "oracle:lost-key", "bulk-inserted key %d cannot be found at quiescence", bk); }
     std::map<int, int> seen;
     for (auto it = m->begin(); it != m->end(); ++it) {
         seen[it->first]++;
         if (it->first < 1000) SIM_CHECK(final_tags.count(it->first) && final_tags[it->first] == it->second.tag, "oracle:traversal", "traversal yields key %d (tag %llu) which find() does not report", it->first, (unsigned long long)it->second.tag);
-        else SIM_CHECK(it->second.tag == (uint64_t)(500000 + it->first - 1000), "oracle:traversal", "prefilled key %d has a wrong value", it->first);
+        else if (it->first < 5000) SIM_CHECK(it->second.tag == (uint64_t)(500000 + it->first - 1000), "oracle:traversal", "prefilled key %d has a wrong value", it->first);
     }
     for (auto& kv : seen) SIM_CHECK(kv.second == 1, "oracle:traversal", "key %d appears %d times in a traversal", kv.first, kv.second);
-    SIM_CHECK(seen.size() == present + (size_t)prefill, "oracle:traversal", "traversal yields %zu keys, %zu expected (a key was lost during rehashing)", seen.size(), present + (size_t)prefill);
+    SIM_CHECK(seen.size() == present + others, "oracle:traversal", "traversal yields %zu keys, %zu expected (a key was lost during rehashing)", seen.size(), present + others);
     for (int i = 0; i < prefill; ++i) SIM_CHECK(seen.count(1000 + i), "oracle:traversal", "prefilled key %d was lost", 1000 + i);
     delete m;
     SIM_CHECK(g_live_vals == 0, "oracle:element-balance", "%d mapped values alive after the map was destroyed", g_live_vals);
